@@ -1039,3 +1039,203 @@ Proof.
     + destruct (A i Hlt) as (w' & Hf' & Hd). congruence.
     + exfalso. eapply Hno; eassumption.
 Qed.
+
+(* ------------------------------------------------------------------ *)
+(* C15_drain                                                            *)
+
+Lemma grow_mode c k : forall s from, f_drain (grow c s from k) = f_drain s.
+Proof.
+  induction k as [|k IH]; intros s from; cbn [grow]; [reflexivity|]. rewrite IH.
+  destruct (find_w (f_pool s) from); [unfold mark_available; cbn; destruct (avail_in _ from); reflexivity|reflexivity].
+Qed.
+
+Lemma shrink_mode c k : forall s from, f_drain (shrink c s from k) = f_drain s.
+Proof.
+  induction k as [|k IH]; intros s from; cbn [shrink]; [reflexivity|]. rewrite IH.
+  destruct (find_w (f_pool s) from) as [w|]; [destruct (w_working w)|]; reflexivity.
+Qed.
+
+Lemma resize_mode c s n s' e : resize c s n = (s', e) -> f_drain s' = f_drain s.
+Proof.
+  unfold resize. destruct (n =? 0); [intros H; inversion H; reflexivity|].
+  destruct (f_size s <? N.min pool_max n).
+  - intros H. apply route_queued_frame in H. destruct H as (_ & F2 & _). rewrite F2. cbn [set_size f_drain].
+    apply grow_mode.
+  - destruct (N.min pool_max n <? f_size s); intros H; inversion H; subst; [|reflexivity].
+    cbn [set_size f_drain]. apply shrink_mode.
+Qed.
+
+Lemma worker_finished_mode c s i s' e : worker_finished c s i = (s', e) -> f_drain s' = f_drain s.
+Proof.
+  unfold worker_finished. destruct (find_w (f_pool s) i) as [w|]; [|intros H; inversion H; reflexivity].
+  destruct (worker_complete w) as [w' e1]. destruct (w_drain w').
+  - destruct (w_working w'); intros H; inversion H; reflexivity.
+  - unfold try_route_next.
+    match goal with |- context [try_route c ?f ?st (Some i)] => destruct (try_route c f st (Some i)) as [s2 e'] eqn:Et end.
+    intros H; inversion H; subst. apply try_route_frame in Et. destruct Et as (_ & F2 & _).
+    unfold mark_available. destruct (avail_in _ i); cbn [set_rs f_drain]; rewrite F2; reflexivity.
+Qed.
+
+Lemma worker_died_mode c s i s' e : worker_died c s i = (s', e) -> f_drain s' = f_drain s.
+Proof.
+  unfold worker_died. destruct (find_w (f_pool s) i) as [w|]; [|intros H; inversion H; reflexivity].
+  destruct (w_drain w && match w_q w with [] => true | _ => false end); [intros H; inversion H; reflexivity|].
+  unfold build, try_route_next. cbn [set_builds f_pool].
+  match goal with |- context [dispatch_job ?a ?b] => idtac | _ => idtac end.
+  destruct (match w_q (mkW (w_id w) None (w_q w) (w_drain w) (assoc i (f_builds s) + 1)) with
+            | j :: r => dispatch_job (set_q (mkW (w_id w) None (w_q w) (w_drain w) (assoc i (f_builds s) + 1)) r) j
+            | [] => (mkW (w_id w) None (w_q w) (w_drain w) (assoc i (f_builds s) + 1), [])
+            end) as [w1 e1].
+  match goal with |- context [try_route c ?f ?st (Some i)] => destruct (try_route c f st (Some i)) as [s2 e'] eqn:Et end.
+  intros H; inversion H; subst. apply try_route_frame in Et. destruct Et as (_ & F2 & _).
+  unfold mark_available. destruct (avail_in _ i); cbn [set_rs f_drain]; rewrite F2; reflexivity.
+Qed.
+
+(* draining has been requested (or the factory is already gone) *)
+Definition closing (s : fstate) : Prop := f_drain s <> NotDraining \/ f_stopped s = true.
+
+Lemma after_message_closing s s' e : after_message s = (s', e) -> closing s -> closing s'.
+Proof.
+  unfold after_message, closing. destruct (f_drain s) eqn:Ed.
+  - intros H; inversion H; subst. rewrite Ed. exact (fun x => x).
+  - destruct (all_available (f_pool s) && (len (f_q s) =? 0)); intros H; inversion H; subst; intros _.
+    + right. reflexivity.
+    + left. rewrite Ed. discriminate.
+  - intros H; inversion H; subst. intros _. right. reflexivity.
+Qed.
+
+Lemma with_after_closing r s' e : with_after r = (s', e) -> closing (fst r) -> closing s'.
+Proof.
+  destruct r as [s0 e0]. unfold with_after. destruct (after_message s0) as [s1 e1] eqn:E.
+  intros H; inversion H; subst. cbn [fst]. eapply after_message_closing; eassumption.
+Qed.
+
+Lemma closing_mode s s' : f_drain s' = f_drain s -> f_stopped s' = f_stopped s -> closing s -> closing s'.
+Proof. unfold closing. intros -> ->. exact (fun x => x). Qed.
+
+Lemma finish_w_closing c s i only s' e : finish_w c s i only = (s', e) -> closing s -> closing s'.
+Proof.
+  unfold finish_w. destruct (f_stopped s) eqn:Hst; [intros H; inversion H; subst; exact (fun x => x)|].
+  destruct (find_w (f_pool s) i) as [w|]; [|intros H; inversion H; subst; exact (fun x => x)].
+  destruct (w_cur w) as [j|]; [|intros H; inversion H; subst; exact (fun x => x)].
+  destruct (match only with Some id => jid j =? id | None => true end); [|intros H; inversion H; subst; exact (fun x => x)].
+  destruct (with_after (worker_finished c s i)) as [s1 e1] eqn:E. intros H; inversion H; subst. intros Hc.
+  eapply with_after_closing; [exact E|]. destruct (worker_finished c s i) as [s0 e0] eqn:Ew. cbn [fst].
+  destruct Hc as [Hc|Hc]; [|congruence]. left. rewrite (worker_finished_mode _ _ _ _ _ Ew). exact Hc.
+Qed.
+
+Lemma finish_list_closing c l : forall s s' e, finish_list c s l = (s', e) -> closing s -> closing s'.
+Proof.
+  induction l as [|[i id] r IH]; intros s s' e; cbn [finish_list].
+  { intros H; inversion H; subst. exact (fun x => x). }
+  destruct (finish_w c s i (Some id)) as [s1 e1] eqn:E1. destruct (finish_list c s1 r) as [s2 e2] eqn:E2.
+  intros H Hc; inversion H; subst. eapply IH; [eassumption|]. eapply finish_w_closing; eassumption.
+Qed.
+
+Lemma step_closing c s o : closing s -> closing (fst (step c s o)).
+Proof.
+  intros Hc. destruct o as [j|i| |i|i|n| |dt| |]; cbn [step].
+  - destruct (f_stopped s) eqn:Hst; [exact Hc|].
+    destruct (with_after (dispatch c s j)) as [s' e] eqn:E. cbn [fst].
+    eapply with_after_closing; [exact E|]. destruct (dispatch c s j) as [s0 e0] eqn:Ed. cbn [fst].
+    destruct (dispatch_frame _ _ _ _ _ Ed) as (_ & F2 & F3 & _). eapply closing_mode; eassumption.
+  - destruct (finish_w c s i None) as [s' e] eqn:E. cbn [fst]. eapply finish_w_closing; eassumption.
+  - destruct (finish_list c s (busy_snapshot s)) as [s' e] eqn:E. cbn [fst]. eapply finish_list_closing; eassumption.
+  - destruct (f_stopped s) eqn:Hst; [exact Hc|]. destruct (find_w (f_pool s) i) as [w|]; [|exact Hc].
+    destruct (w_cur w); [|exact Hc]. destruct (worker_died c s i) as [s' e] eqn:E. cbn [fst].
+    destruct Hc as [Hc|Hc]; [|congruence]. left. rewrite (worker_died_mode _ _ _ _ _ E). exact Hc.
+  - destruct (f_stopped s) eqn:Hst; [exact Hc|]. destruct (worker_died c s i) as [s' e] eqn:E. cbn [fst].
+    destruct Hc as [Hc|Hc]; [|congruence]. left. rewrite (worker_died_mode _ _ _ _ _ E). exact Hc.
+  - destruct (f_stopped s) eqn:Hst; [exact Hc|].
+    destruct (with_after (resize c s n)) as [s' e] eqn:E. cbn [fst].
+    eapply with_after_closing; [exact E|]. destruct (resize c s n) as [s0 e0] eqn:Ed. cbn [fst].
+    destruct Hc as [Hc|Hc]; [|congruence]. left. rewrite (resize_mode _ _ _ _ _ Ed). exact Hc.
+  - destruct (f_stopped s) eqn:Hst; [exact Hc|].
+    destruct (with_after (set_dstate s Draining, [EHook HDraining])) as [s' e] eqn:E. cbn [fst].
+    eapply with_after_closing; [exact E|]. left. cbn. discriminate.
+  - exact Hc.
+  - exact Hc.
+  - destruct (f_stopped s) eqn:Hst; [exact Hc|]. destruct (after_message s) as [s1 e1] eqn:E.
+    pose proof (after_message_closing _ _ _ E Hc). destruct (f_stopped s1); exact H.
+Qed.
+
+Lemma state_after_closing c ops : forall s, closing s -> closing (state_after c s ops).
+Proof. induction ops as [|o r IH]; intros s Hc; cbn [state_after]; [exact Hc|]. apply IH, step_closing, Hc. Qed.
+
+Definition is_accept_ev (e : ev) : bool := match e with EAccept _ => true | _ => false end.
+
+Lemma stop_events_no_accept s : existsb is_accept_ev (snd (stop_factory s)) = false.
+Proof.
+  unfold stop_factory. cbn [snd]. rewrite existsb_app. cbn [existsb is_accept_ev orb].
+  induction (f_q s) as [|j r IH]; cbn [map existsb is_accept_ev orb]; [reflexivity|exact IH].
+Qed.
+
+(* once DrainRequests has been processed (or the factory is gone) a dispatch is never accepted:
+   it is reported as Shutdown and rejected, or dropped with the dead factory's mailbox *)
+Lemma drain_refuses_step c s j : closing s ->
+  existsb is_accept_ev (snd (step c s (FDispatch j))) = false
+  /\ (f_stopped s = true -> snd (step c s (FDispatch j)) = [EDropped (jid j)])
+  /\ (f_stopped s = false ->
+      exists rest, snd (step c s (FDispatch j)) = EDiscard (jid j) Shutdown :: EReject (jid j) :: rest).
+Proof.
+  intros Hc. cbn [step]. destruct (f_stopped s) eqn:Hst.
+  { cbn. repeat split; [discriminate]. }
+  destruct Hc as [Hc|Hc]; [|congruence].
+  unfold dispatch. destruct (f_drain s) eqn:Ed; [congruence| |];
+    (unfold with_after; destruct (after_message s) as [s1 e1] eqn:Ea; cbn [snd];
+     split; [|split; [discriminate|intros _; eexists; reflexivity]]; cbn [app existsb is_accept_ev orb];
+     revert Ea; unfold after_message; rewrite Ed).
+  - destruct (all_available (f_pool s) && (len (f_q s) =? 0)); intros H; inversion H; subst;
+      [apply (stop_events_no_accept (set_dstate s Drained))|reflexivity].
+  - intros H; inversion H; subst. apply stop_events_no_accept.
+Qed.
+
+(* the factory stops exactly when, after a processed message, every worker is available and the
+   queue is empty; then the stopped hook runs and nothing is left to report *)
+Lemma drain_stop_spec s : f_drain s = Draining ->
+  if all_available (f_pool s) && (len (f_q s) =? 0)
+  then f_stopped (fst (after_message s)) = true /\ snd (after_message s) = [EHook HStopped; EStopped]
+  else after_message s = (s, []).
+Proof.
+  intros Hd. unfold after_message. rewrite Hd.
+  destruct (all_available (f_pool s) && (len (f_q s) =? 0)) eqn:E; [|reflexivity].
+  apply andb_true_iff in E. destruct E as [_ E]. apply N.eqb_eq in E.
+  unfold stop_factory. cbn [fst snd f_stopped set_dstate f_q].
+  destruct (f_q s); [split; reflexivity|unfold len in E; cbn [length] in E; lia].
+Qed.
+
+Lemma not_draining_never_stops s : f_drain s = NotDraining -> after_message s = (s, []).
+Proof. intros Hd. unfold after_message. rewrite Hd. reflexivity. Qed.
+
+(* whole histories: after a DrainRequests anywhere in the history, no later dispatch is accepted *)
+Theorem drain_refuses c ops1 ops2 j :
+  let s := state_after c (fst (step c (state_after c (fst (init c 0)) ops1) FDrain)) ops2 in
+  existsb is_accept_ev (snd (step c s (FDispatch j))) = false.
+Proof.
+  intros s. apply drain_refuses_step. unfold s. apply state_after_closing.
+  set (s1 := state_after c (fst (init c 0)) ops1). cbn [step].
+  destruct (f_stopped s1) eqn:Hst; [right; exact Hst|].
+  destruct (with_after (set_dstate s1 Draining, [EHook HDraining])) as [s' e] eqn:E. cbn [fst].
+  eapply with_after_closing; [exact E|]. left. cbn. discriminate.
+Qed.
+
+(* a dispatch refused by the limiter is handed to the discard handler as RateLimited and rejected *)
+Lemma rate_limited_reported c s j s1 e :
+  f_drain s = NotDraining -> route c s j None = (s1, Limited, e) ->
+  dispatch c s j = (s1, e ++ [EDiscard (jid j) RateLimited; EReject (jid j)]).
+Proof. intros Hd Hr. unfold dispatch. rewrite Hd, Hr. reflexivity. Qed.
+
+(* ... and the limiter refuses exactly when its refreshed balance is empty *)
+Lemma route_limited_iff c rc ini b s j hint :
+  c_rate c = Some (rc, ini) -> f_bucket s = Some b ->
+  (snd (fst (route c s j hint)) = Limited <-> balance (refresh rc b (f_now s)) = 0).
+Proof.
+  intros Hc Hb. unfold route. rewrite Hc, Hb. unfold check.
+  destruct (N.ltb_spec 0 (balance (refresh rc b (f_now s)))) as [Hpos|Hz].
+  - destruct (route_inner c (set_bucket s (Some (refresh rc b (f_now s)))) j hint) as [[s2 r] e] eqn:E.
+    assert (r <> Limited).
+    { unfold route_inner in E. destruct (choose c _ j _ hint _) as [rs' [i|]]; [|inversion E; discriminate].
+      destruct (find_w _ i); [destruct (enqueue_job c _ j)|]; inversion E; discriminate. }
+    destruct r; cbn [fst snd]; split; intros; try lia; try discriminate; contradiction.
+  - cbn [fst snd]. split; [intros _; lia|reflexivity].
+Qed.
